@@ -433,6 +433,7 @@ def render(ctx: Ctx) -> List[Ob]:
         own_tab: Dict[str, int] = {}
         anc_guard_ok = True
         own_guard_ok = True
+        extra_lstrip = False
         for n, e_ in apps:
             pcs = path_conds(ctx, f, n)
             ts = cond_texts(pcs)
@@ -447,6 +448,11 @@ def render(ctx: Ctx) -> List[Ob]:
             if inside:
                 anc_tab["last" if last else "other"] = idx6
                 cnt = [t for t in ts if lsp in t]
+                good_ = [t for t in cnt if match(f"not ($d <= {lsp})", P_(t)) is not None or match(f"$d > {lsp}", P_(t)) is not None]
+                if len(cnt) > 1 and len(good_) == 1:
+                    # further conditions on lstrip come from a short-cut in front of the walk: what it returns is not read here
+                    extra_lstrip = True
+                    cnt = good_
                 if not (len(cnt) == 1 and (match(f"not ($d <= {lsp})", P_(cnt[0])) is not None or match(f"$d > {lsp}", P_(cnt[0])) is not None)):
                     anc_guard_ok = False
                 else:
@@ -460,6 +466,10 @@ def render(ctx: Ctx) -> List[Ob]:
                 leaf = "not self._children" in ts or "not self.children" in ts
                 own_tab[("kids" if kids else "leaf" if leaf else "?") + ("-last" if last else "-other")] = idx6
                 cnt = [t for t in ts if lsp in t]
+                good_ = [t for t in cnt if match(f"$d >= {lsp}", P_(t)) is not None or match(f"not ($d < {lsp})", P_(t)) is not None]
+                if len(cnt) > 1 and len(good_) == 1:
+                    extra_lstrip = True
+                    cnt = good_
                 if not (len(cnt) == 1 and (match(f"$d >= {lsp}", P_(cnt[0])) is not None or match(f"not ($d < {lsp})", P_(cnt[0])) is not None)):
                     own_guard_ok = False
         ok_anc = anc_tab == {"last": 0, "other": 1} and anc_guard_ok
@@ -467,7 +477,11 @@ def render(ctx: Ctx) -> List[Ob]:
         rets = [c for c in exit_cases(ctx, f, ("return",)) if c.value is not None]
         parts = apps[0][1]["$parts"]
         if ok_own and not (rets and all(match(f"''.join({parts})", r_.value) is not None for r_ in rets)):
-            ok_own = False
+            ok_own = None if rets and all(match(f"''.join({parts})", r_.value) is not None or (isinstance(r_.value, ast.Constant) and r_.value.value == "") for r_ in rets) else False
+        if extra_lstrip:
+            # a short-cut on lstrip in front of the walk: the table of the walk is right, what the short-cut answers is undecided
+            ok_anc = None if ok_anc else ok_anc
+            ok_own = None if ok_own else ok_own
         why_a, why_o = f"ancestor segments {anc_tab}", f"own connector {own_tab}"
     else:
         why_a = why_o = "segment appends not recognised"
@@ -522,7 +536,26 @@ def render(ctx: Ctx) -> List[Ob]:
     lst_loops = []
     if lst and oth and len(lst) + len(oth) == len(ys):
         lst_loops = [n for n in iter_own(fi.node) if isinstance(n, ast.For) and all(any(c.stmt is x for x in ast.walk(n)) for c in lst)]
-        ok = None if (len(lst_loops) != 1 or any(isinstance(c.stmt, ast.YieldFrom) for c in lst) or not isinstance(lst_loops[0].iter, ast.Call)) else match("self.iterator(add_self=add_self)", lst_loops[0].iter) is not None and len(lst) <= 2 \
+        def _walk_flag(lp_):
+            """None, or [(value text, condition texts)] for the add_self argument of `self.iterator(add_self=V)`: V is the parameter
+            itself, or a local that carries it (`show_self = False if <root> else add_self`)."""
+            it_ = lp_.iter
+            if not (isinstance(it_, ast.Call) and norm(it_.func) == "self.iterator" and not it_.args and len(it_.keywords) == 1 and it_.keywords[0].arg == "add_self"):
+                return None
+            v_ = it_.keywords[0].value
+            if norm(v_) == "add_self":
+                return [("add_self", set())]
+            if isinstance(v_, ast.Name):
+                out_ = []
+                for rv_ in reaching_values(ctx, fi, lp_, v_):
+                    st_ = m.parent_of(rv_)
+                    out_.append((norm(rv_), cond_texts(path_conds(ctx, fi, st_)) if st_ is not None else set()))
+                return out_
+            return None
+
+        wf_ = _walk_flag(lst_loops[0]) if len(lst_loops) == 1 else None
+        walk_ok = wf_ is not None and all(t_ in ("add_self", "False") for t_, _c in wf_) and any(t_ == "add_self" for t_, _c in wf_)
+        ok = None if (len(lst_loops) != 1 or any(isinstance(c.stmt, ast.YieldFrom) for c in lst) or not isinstance(lst_loops[0].iter, ast.Call)) else walk_ok and len(lst) <= 2 \
             and all(norm(c.value) in (f"repr({norm(lst_loops[0].target)})", f"repr.format(node={norm(lst_loops[0].target)})") for c in lst) \
             and all(isinstance(c.stmt, ast.YieldFrom) and "_render_lines" in norm(c.value) for c in oth)
     T(fi, "list style emits the renderings only, once per node of the walk", ok, "style='list' has no prefixes")
@@ -556,6 +589,11 @@ def render(ctx: Ctx) -> List[Ob]:
         offs = [n for n in iter_own(fi.node) if isinstance(n, ast.Assign) and norm(n) == "add_self = False"
                 and any(p_ and norm(a_) == "style == 'list'" for a_, p_ in path_conds(ctx, fi, n))]
         ok = len(offs) == 1 and not_after(ctx, fi, offs[0], lst_loops[0])
+        if not ok and not offs and len(lst_loops) == 1:
+            wf2 = _walk_flag(lst_loops[0]) if 'wf_' in dir() else None
+            if wf2 and any(t_ == "False" and ({"not self._parent", "self._parent is None"} & c_) for t_, c_ in wf2) \
+                    and all(t_ == "False" or {"self._parent", "not self._parent is None", "not (self._parent is None)"} & c_ for t_, c_ in wf2):
+                ok = True  # a local flag: False for the system root, the caller's add_self otherwise
         if not ok and not offs and not isinstance(lst_loops[0].iter, ast.Call):
             # the walk is prepared elsewhere: every walk that reaches the loop must switch add_self off for the system root
             vals_ = reaching_values(ctx, fi, lst_loops[0], lst_loops[0].iter)
